@@ -148,6 +148,10 @@ def run_shard(args):
         name = "test_a.py"
         files = {}
         pp = pyproject(o)
+        if rng.random() < 0.2:
+            # the documented default configuration block: an empty format-command is "no command"
+            pp = (pp or "") + '\n[tool.inline-snapshot]\nformat-command=""\n'
+            C["projects_with_empty_format_command"] = C.get("projects_with_empty_format_command", 0) + 1
         if pp:
             files["pyproject.toml"] = pp
             if rng.random() < 0.3:
